@@ -132,6 +132,7 @@ def gen(d, tier):
             gone = {p} | set(tree.subtree(p))
             world.apply(s, op, p)
             # DIRMOVE_TOMB (KF-11 family): a moved-out object leaves a tombstone on BOTH sides' path-style indexes
+            gone |= world.last_gone
             world.ever_deleted[0] |= gone
             world.ever_deleted[1] |= gone
             acts.append(["u", s, "rename", p, "!" + dst])
